@@ -167,7 +167,7 @@ def nontrivial(case, impl):
 
 
 def run(res, tier, seed, replay):
-    pr = vlib.proof_stage(res, PID)
+    vlib.proof_stage(res, PID)
     ok, log = vlib.ensure_extraction("c18", "theories/extract/ExtractC18.v")
     if not ok:
         res.violation(dict(kind="machinery-error", what="extraction/driver build failed", log=log[-3000:]), no_input=True)
